@@ -150,6 +150,12 @@ func c16Indexes(t *tree.Tree, obs *Sexp) {
 		bits.List = append(bits.List, L(B(true), Ints(set)))
 	}
 	obs.List = append(obs.List, KV("tipindex", Strs(names)), KV("tipidx", tidx), KV("bits", bits), KV("bitlens", Ints(lens)), KV("ntips", ntips))
+	// Node.Depth() (distance to the closest tip) and the root depth of every node, Nodes() order
+	depths := L()
+	for _, nd := range t.Nodes() {
+		depths.List = append(depths.List, L(I(nd.VerifDepth()), I(nd.VerifRootDepth())))
+	}
+	obs.List = append(obs.List, KV("depths", depths))
 }
 
 // c16Concurrent: k goroutines generate trees at the same time (each `per` trees of n tips).  The
